@@ -91,6 +91,9 @@ static void run_fault(const Case &c) {
     Bytes oldimg, newpart; images(c, oldimg, newpart);
     install(c.cfg, oldimg);
     Instance in(c.cfg);
+    // the instance has seen the valid previous image before the faulty operation (whatever it remembers must not outlive the failure)
+    M().clear_run();
+    if (persistent_validate(&in.st) != PERSISTENT_ACCESS_SUCCESS) { F(c, "harness:previous-image-invalid", "the installed previous image does not validate"); return; }
     M().clear_run();
     M().fault_at = c.point; M().fault_kind = c.fkind;
     vp::Block dst(c.cfg.size + 1);
@@ -98,7 +101,14 @@ static void run_fault(const Case &c) {
     if (VP_BUDGET(64 + 8 * c.cfg.size)) { rc = do_op(c, in, newpart, dst.p); vp::budget().armed = false; } else { F(c, "no-progress", "operation keeps calling the medium after a fault"); return; }
     vp::count();
     if (!M().fault_hit) { vp::stats().dontcare++; return; }
-    if (rc != PERSISTENT_ACCESS_IO_ERROR) F(c, "not-reported", vp::fmt("medium call %ld %s but the operation returned %d instead of IO_ERROR", c.point, c.fkind == 0 ? "failed" : "transferred short", (int)rc));
+    if (rc != PERSISTENT_ACCESS_IO_ERROR) { F(c, "not-reported", vp::fmt("medium call %ld %s but the operation returned %d instead of IO_ERROR", c.point, c.fkind == 0 ? "failed" : "transferred short", (int)rc)); return; }
+    // the medium works again: validation by the same instance succeeds only if the checksum on the medium matches the data on the medium
+    M().clear_run();
+    PersistentAccess v = persistent_validate(&in.st);
+    bool consistent = medium_consistent(c.cfg);
+    if (v == PERSISTENT_ACCESS_SUCCESS && !consistent) F(c, "mixed-image-validates-after-failed-operation", vp::fmt("the operation failed with an I/O error; afterwards the same instance validates although checksum %x does not match the data on the medium (%x)", medium_sum(c.cfg), ref_sum(c.cfg, M().mem + c.cfg.data_addr())));
+    else if (v == PERSISTENT_ACCESS_INVALID_DATA && consistent) F(c, "consistent-image-rejected-after-failed-operation", "validate rejects a medium whose checksum matches its data");
+    else vp::cls(consistent ? "failed-operation-leaves-consistent-medium" : "failed-operation-leaves-mixed-medium");
 }
 
 static void run_config(const Config &cfg, uint64_t seed, bool thorough) {
@@ -151,7 +161,7 @@ static void run() {
     size_t maxsize = a.thorough() ? 32 : 16;
     vp::stats().rule = vp::fmt("fault enumeration: data size 1..%zu x placement {0,5} x 3 checksums x aux {none,0,1,2,size-1,size+1} ; per configuration every crash point (total octets the medium accepts before "
                                "the cut, i.e. every whole-write prefix and every torn position) of the full store and of partial stores, followed by validate+fetch on a fresh instance; and a single "
-                               "failing / short (n-1, 1, n-2^16, n-2^8) medium call at every call index (sampled for operations with more than 64 medium calls); of store, store_part, validate, fetch, fetch_part, reset; plus data sizes 255..257, 65535..65537, 70000 with sampled crash points", maxsize);
+                               "failing / short (n-1, 1, n-2^16, n-2^8) medium call at every call index (sampled for operations with more than 64 medium calls); of store, store_part, validate, fetch, fetch_part, reset, on an instance that validated the previous image before and validates again afterwards; plus data sizes 255..257, 65535..65537, 70000 with sampled crash points", maxsize);
     vp::stats().exhaustive = true;
     uint64_t idx = 0;
     for (size_t size = 1; size <= maxsize; size++)
